@@ -616,6 +616,25 @@ def pattern_method(ip, pat, name, args, kwargs):
         return _MatchObj(m)
     if name != "match":
         raise Unsupported("pattern method %s on a symbolic subject" % name)
+    if not isinstance(pos, Sym) and pos == 0:
+        # shaped subject (constants + pieces of known class): the match and its groups are computed on the structure
+        from . import shape
+        try:
+            res = shape.structural_match(root, info, st)
+        except Unsupported:
+            res = None
+        if res is not None:
+            core.cur().ghost["structural_matches"] = core.cur().ghost.get("structural_matches", 0) + 1
+            if res[0] == "nomatch":
+                return None
+            groups = {0: mkstr(res[2], info["bytes"])}
+            for gi, gv in res[1].items():
+                groups[gi] = None if gv is None else mkstr(gv, info["bytes"])
+            whole_len = z3.Length(res[2])
+            m = SMatch(groups, 0, mkint(whole_len), info["bytes"], info["groupnames"])
+            return _MatchObj(m)
+    if core.TRACE:
+        print("[pyvc] regex %r not decided on the structure of %s" % (pat.pattern, str(z3.simplify(st))[:400]), flush=True)
     R = match_language(root, info)
     if not branch(z3.InRe(rem, R)):
         return None
